@@ -185,7 +185,7 @@ def cases(tier):
             G(f"momentum/lowrank/{dim}/{mkind}", "momentum", {"kind": "lowrank", "dim": dim, "mkind": mkind})
     G("momentum/blockdiag/3", "momentum", {"kind": "blockdiag", "dim": 3, "mkind": "blockdiag_pd"})
     for kind in ("constr", "gauss_constr"):
-        for mkind in ("identity", "diag", "dense"):
+        for mkind in ("identity", "scaled", "diag", "dense"):
             for ckind in ("linear", "sphere"):
                 G(f"momentum/{kind}/2/{mkind}/{ckind}", "momentum", {"kind": kind, "dim": 2, "mkind": mkind, "ckind": ckind})
     for kind, mkind in (("euclid", "identity"), ("euclid", "diag"), ("euclid", "dense"), ("diagonal", "diag"), ("scalar", "diag")):
